@@ -305,3 +305,13 @@ UNITS.append(dict(
     selftest=[('__gmpn_neg_n', r'\+\+__gmp_rp, \+\+__gmp_up, __gmp_n\)', '++__gmp_rp, ++__gmp_up, __gmp_n - 1)'),
               ('__gmpn_neg_n', r'\*__gmp_rp = 0;', '*__gmp_rp = 1;')],
 ))
+
+for u in UNITS:
+    if u['name'].endswith('_ovl'):
+        u['timeout'] = 900
+    if u['name'] in ('mpn_rshift_ovl', 'mpn_copyd_ovl'):
+        u['tier'] = 'thorough'
+    if u['name'] == 'mpn_copyd_ovl':
+        u['solver'] = ['--sat-solver', 'cadical']      # measured: cadical 242 s, kissat/minisat no answer in 900 s
+    if u['name'] in ('mpn_add_n', 'mpn_copyi', 'mpn_lshift', 'mpn_add'):
+        u['quick_props'] = ['C05', 'C15']
